@@ -118,6 +118,45 @@ func (p c04) Gen(r *simhook.Rand, tier string, idx int) harness.Scenario {
 		sc.HorizonS = 900
 		return sc
 	}
+	if r.Chance(1, 12) {
+		// class "asking-interleave": the proxy's table still names node B for a slot that has meanwhile gone to A and is
+		// now slowly migrating back to B. One connection reads keys that do not exist (B: MOVED to A, A: ASK to B, the
+		// proxy sends ASKING + GET to B), another reads keys that exist and are still on A (B: MOVED to A, executed
+		// there). Both pipelines hit B's connection at the same time: the one-shot ASKING must stay with its request.
+		sc.Class = "asking-interleave"
+		sc.Env = world.RedisCfg{Masters: 2 + r.Intn(2)}
+		sc.SlackMs = 0
+		sc.MigStepMs = 7000
+		tag := fmt.Sprintf("ai%c", 'a'+rune(r.Intn(26)))
+		slot := cluster.Slot([]byte("{" + tag + "}"))
+		per := cluster.NumSlots / sc.Env.Masters
+		b := slot / per // the node that owns the slot in the even start layout
+		if b >= sc.Env.Masters {
+			b = sc.Env.Masters - 1
+		}
+		a := (b + 1) % sc.Env.Masters
+		nk := 12 + r.Intn(20)
+		for i := 0; i < nk; i++ {
+			sc.Env.Preload = append(sc.Env.Preload, world.KV{K: world.Bin(fmt.Sprintf("{%s}:%d", tag, i)), V: world.Bin(uniqueVal("pre", i, 10))})
+		}
+		miss := ConnScript{Name: "c0"}
+		hit := ConnScript{Name: "c1"}
+		for i := 0; i < 20+r.Intn(30); i++ {
+			miss.Reqs = append(miss.Reqs, world.Request{Args: world.Bins("GET", fmt.Sprintf("{%s}:absent%d", tag, i))})
+			hit.Reqs = append(hit.Reqs, world.Request{Args: world.Bins("GET", fmt.Sprintf("{%s}:%d", tag, nk-1-r.Intn(nk/2)))})
+		}
+		// the traffic starts when the migration is half way: importing and migrating are set, a few keys have moved
+		miss.Reqs[0].Gap = 30000
+		hit.Reqs[0].Gap = 30000
+		sc.Conns = []ConnScript{miss, hit}
+		sc.Faults = []Fault{
+			{Kind: "layout", From: slot, To: slot, Dst: a, OnCmd: "cluster", Nth: 1},
+			{Kind: "mig-start", From: slot, Dst: b, OnCmd: "cluster", Nth: 1},
+		}
+		sc.HorizonS = 900
+		sc.IdleFaults = false
+		return sc
+	}
 	emptyTarget := r.Chance(1, 3)
 	if emptyTarget {
 		// the last master is a freshly added node without slots: the first slots migrate to it
